@@ -200,6 +200,14 @@ func cmdCheck(args []string) int {
 				}
 				eng.evalMismatch = 0
 				rr := eng.explore(fn, h.ExpectBlock[en])
+				// reachability obligations: only meaningful when the exploration was complete
+				if len(rr.Inconclusive) == 0 && len(rr.Violations) == 0 {
+					for _, l := range h.MustReach[en] {
+						if rr.Reached[l] == 0 {
+							rr.Violations = append(rr.Violations, &Violation{Label: l, Kind: "unreachable", Msg: "no input within the bounds reaches " + l, Model: &Model{Vars: map[string]uint64{}, UFs: map[string]map[uint64]uint64{}}})
+						}
+					}
+				}
 				rep := &entryReport{Harness: filepath.Base(h.Path), Entry: en, RR: rr, Funcs: eng.funcList(rr.Funcs), Params: params, Solver: cfg.Solver}
 				reports = append(reports, rep)
 				groupReports = append(groupReports, rep)
